@@ -111,11 +111,14 @@ class RLScheduler(BaseScheduler):
     def _train(self) -> None:
         """Run the training loop."""
         state = self._env.reset()
-        while not self._stopped:
+        while True:
             # Get the action chosen by the agent
             action = self._agent.policy(state)
             # Interact with the environment
-            next_state, reward, _, _, _ = self._env.step(action)
+            next_state, reward, _, session_ended, _ = self._env.step(action)
+            if session_ended:
+                # end-of-session marker: the last action was never executed, there is nothing to learn from
+                break
             # Learn from interaction
             self._agent.learn(state, action, reward, next_state)
             state = next_state
@@ -165,3 +168,7 @@ class RLScheduler(BaseScheduler):
         self._stopped = True
         self._out_queue.put(None)
         cast(threading.Thread, self._agent_thread).join()
+        # the agent may have proposed one more action that will never be executed: it must not
+        # leak into the next session
+        while not self._in_queue.empty():
+            self._in_queue.get_nowait()
